@@ -66,6 +66,7 @@ type genCtx struct {
 	mid     int
 	hot     *typeInfo
 	hotM    string
+	forced  map[*typeInfo][]string // single-type imports a file must carry (they decide what a simple name means)
 }
 
 func (g *genCtx) fresh(prefix string) string {
@@ -151,6 +152,13 @@ func Generate(r *run.Rand, o Opts) *Project {
 			name = g.ident(classWords, false)
 			if len(name) > 1 || !o.LongNames {
 				name += r.Pick(classSuffix)
+			}
+			if o.Excluded && r.Chance(1, 8) {
+				// main classes whose names merely END like the test-file suffixes in lower case
+				cand := r.Pick([]string{"Latest", "Contest", "Backtests", "Attest", "Greatest", "Protests", "Fastest"})
+				if !usedCls[pk+"."+cand] && len(g.byName[cand]) == 0 {
+					name = cand
+				}
 			}
 			if o.SameNameTwoPkgs && i > 0 && r.Chance(1, 4) {
 				// reuse the simple name of an earlier type in a different package
@@ -342,6 +350,15 @@ func (g *genCtx) skeleton(ti *typeInfo) {
 			if s != ti && s.Decl.Kind == "Class" && len(g.byName[s.Simple]) == 1 && s.Simple != t.Name {
 				t.Extends = s.Simple
 				t.ExtendsFQ = s.Pkg + "." + s.Simple
+			} else if s != ti && s.Decl.Kind == "Class" && s.Simple != t.Name && s.Pkg != ti.Pkg && len(g.byName[s.Simple]) > 1 {
+				// the same simple name exists in several packages (possibly in the own one): an explicit single-type
+				// import decides, as in Java
+				t.Extends = s.Simple
+				t.ExtendsFQ = s.Pkg + "." + s.Simple
+				if g.forced == nil {
+					g.forced = map[*typeInfo][]string{}
+				}
+				g.forced[ti] = append(g.forced[ti], s.Pkg+"."+s.Simple)
 			}
 		} else {
 			e := externals[r.Intn(len(externals))]
@@ -579,6 +596,11 @@ func (g *genCtx) imports(ti *typeInfo) {
 			}
 		})
 	}
+	forcedSet := map[string]bool{}
+	for _, full := range g.forced[ti] {
+		need[full[strings.LastIndex(full, ".")+1:]] = full
+		forcedSet[full] = true
+	}
 	var keys []string
 	for k := range need {
 		keys = append(keys, k)
@@ -588,7 +610,7 @@ func (g *genCtx) imports(ti *typeInfo) {
 	for _, k := range keys {
 		full := need[k]
 		pk := full[:strings.LastIndex(full, ".")]
-		if r.Chance(1, 10) {
+		if !forcedSet[full] && r.Chance(1, 10) {
 			if !wild[pk] {
 				wild[pk] = true
 				f.Imports = append(f.Imports, Import{Path: pk + ".*", Wildcard: true})
